@@ -144,7 +144,7 @@ M("C10", "c10_m_handshake", ["<HandshakeResponse as Serialize>::deserialize", "<
   "every buffer of length 0..=400 (url length field symbolic); String::from_utf8 and the services text parser uninterpreted")
 M("C10", "c10_m_message", ["Message::deserialize", "GhostChainSync::deserialize", "ApiMessage::deserialize", "BlockchainRequest::deserialize", "HandshakeChallenge::deserialize"],
   "every tag byte, every payload of length 0..=200; tags 2/3/4 delegate to decoders explored separately; tag 9 (text) uninterpreted")
-M("C10", "c10_m_block", ["Block::deserialize_from_net"], "every buffer of length 0..=565 (thorough 0..=725), transaction count and per-transaction counts symbolic; the per-transaction decoder is uninterpreted here (decided by c10_m_tx)")
+M("C10", "c10_m_block", ["Block::deserialize_from_net"], "every buffer of length 0..=565 (thorough 0..=725), transaction count and per-transaction counts symbolic; the per-transaction decoder is uninterpreted here (decided by c10_m_tx); every capacity request (with_capacity / reserve / resize / vec![x; n]) on every path bounded by 64 x length + 4096 elements (all engine-M decoder obligations)")
 
 # ============================================================================== C09
 PROPERTY_ASSUMPTIONS["C09"] = [
@@ -152,6 +152,10 @@ PROPERTY_ASSUMPTIONS["C09"] = [
     "claimed formats: Slip (all fields, all 10 types), Transaction predicted size = encoded size, and the Transaction count/size header agreement between encoder, validator and decoder; blocks, messages, snapshots and payload contents are outside this revision's claim",
 ]
 M("C09", "c09_m_slip_roundtrip", ["Slip::serialize_for_net", "Slip::deserialize_from_net"], "every slip: 33-byte key, amount, block id, tx ordinal, slip index, all 10 slip types symbolic; one query per wire field")
+M("C09", "c09_m_hop_roundtrip", ["Hop::serialize_for_net", "Hop::deserialize_from_net"], "every hop (from, to, sig symbolic); 130 bytes")
+M("C09", "c09_m_tx_roundtrip", ["Transaction::serialize_for_net_with_hop", "Transaction::deserialize_from_net", "Slip::serialize_for_net / deserialize_from_net", "Hop::serialize_for_net / deserialize_from_net"],
+  "shapes inputs/outputs/hops in {1/1/0, 2/1/1, 0/2/0, 1/0/1} (thorough: all of 0..=2 each), payload of 0..=6 symbolic bytes, every field of every element symbolic; decode must be Ok and equal fieldwise", covers=4)
+M("C09", "c09_m_block_header_roundtrip", ["Block::serialize_for_net(Header)", "Block::deserialize_from_net"], "every value of the 31 header fields on the wire (389 bytes); decode must be Ok and equal fieldwise; native replay", covers=1)
 M("C09", "c09_m_tx_size_prediction", ["Transaction::get_serialized_size", "Transaction::serialize_for_net_with_hop", "Slip::serialize_for_net", "Hop::serialize_for_net"], "0..=2 inputs x 0..=1 outputs x 0..=2 hops (thorough 2/2/3), payload length symbolic below 2^32, all field values symbolic", covers=10)
 M("C09", "c09_m_tx_counts_agree", ["Transaction::deserialize_from_net (header section)", "Transaction::serialize_for_net_with_hop (accepted counts: <=255 inputs/outputs)"],
   "count fields symbolic with inputs, outputs <= 255, message <= 2^20, hops <= 64, buffer length exactly the encoded size; element loops cut at the first iteration")
@@ -175,6 +179,7 @@ PROPERTY_ASSUMPTIONS["C13"] = [
 M("C13", "c13_validate_rebroadcast_gate", [BVX], "every path returning true with validate_against_utxo = true; both commitments free values")
 M("C13", "c13_generate_commits_every_atr", ["saito_core::core::consensus::block::Block::generate (second sweep)"], "blocks of 1..=2 transactions with 2 outputs each, every transaction type and output slip type symbolic", covers=2)
 M("C01", "c01_generate_commits_every_atr", ["saito_core::core::consensus::block::Block::generate (second sweep)"], "same as c13_generate_commits_every_atr: the privileged ATR type cannot bypass the commitment", covers=2)
+M("C02", "c02_generate_commits_every_atr", ["saito_core::core::consensus::block::Block::generate (second sweep)"], "same as c13_generate_commits_every_atr: the ATR type, exempt from the no-mint comparison, cannot bypass the commitment", covers=2)
 M("C13", "c13_pruned_block_selection", ["Block::generate_consensus_values (async body, up to the point where the block leaving the window is loaded)"], "block id and genesis period symbolic; parent block not indexed (its arithmetic is independent and skipped)", covers=1)
 M("C13", "c13_atr_inputs_recorded", [CLO], "ATR-typed transactions with 1..=2 inputs, one arbitrary key already recorded for the block")
 
@@ -215,6 +220,9 @@ PROPERTY_ASSUMPTIONS["C17"] = [
 ]
 M("C17", "c17_response_step", ["saito_core::core::consensus::peers::peer::Peer::handle_handshake_response (async body)", "Peer::mark_as_disconnected", "Version::is_set / is_same_minor_version"],
   "every path of the body (about 200) from a symbolic Peer: status in {Disconnected, Connecting, Connected}, challenge / key / static config present or absent; five clauses per returning path", covers=1)
+M("C17", "c17_disconnect_step", ["Peer::mark_as_disconnected"], "arbitrary Peer (status, challenge present or not): afterwards no challenge outstanding and status Disconnected", covers=1)
+M("C17", "c17_challenge_issue_step", ["Peer::initiate_handshake (async body)", "Peer::handle_handshake_challenge (async body)"], "arbitrary Peer and received challenge; the 32 random bytes are a symbolic input; recorded challenge = drawn bytes = sent challenge; signed message = received challenge, key = wallet private key", covers=1)
+M("C17", "c17_network_gate", ["Network::handle_handshake_response (async body)"], "every path up to the authentication bookkeeping; peer known or not, with or without recorded key, any status; the peer-level step's result a symbolic input", covers=1)
 
 # ============================================================================== C07
 PROPERTY_ASSUMPTIONS["C07"] = [
@@ -226,6 +234,7 @@ PROPERTY_ASSUMPTIONS["C07"] = [
 M("C07", "c07_header_agreement", ["Block::create (async body, up to the end of the header assignments)", "Block::validate (async body)", "Block::new"],
   "every value of the ~40 consensus-value fields and of the parent's header; parent indexed or not; golden ticket supplied or not (4 built blocks x about 25 validate paths each); vacuity twin (one header field off by one) must be rejected", covers=1)
 M("C07", "c07_producer_work_gate", ["Mempool::can_bundle_block (async body)"], "all paths of the body; latest block present/absent, ticket supplied or not, routing work / timestamps / burn fee symbolic u64; BurnFee and the golden-ticket count rule uninterpreted (argument roles checked)", covers=1)
+M("C07", "c07_pool_work_counter_exact", ["Mempool::delete_transactions", "Blockchain::remove_block_transactions"], "pool of two transactions with symbolic work and signatures, stale counter arbitrary, confirmed transaction arbitrary; call order on every path of remove_block_transactions", covers=2)
 
 # ============================================================================== C18
 PROPERTY_ASSUMPTIONS["C18"] = [
@@ -244,6 +253,7 @@ PROPERTY_ASSUMPTIONS["C14"] = [
 ]
 M("C14", "c14_add_transaction_step", ["Mempool::add_transaction (async body)"], "pooled transaction with 1..=2 inputs x new transaction with 1..=2 inputs, every 59-byte key / amount / 64-byte signature / non-GT type symbolic", covers=4)
 M("C14", "c14_reorg_revalidates_pool", ["Blockchain::remove_block_transactions", "its retain closure"], "all paths of both bodies, callees uninterpreted")
+M("C14", "c14_delete_recomputes_work", ["Mempool::delete_transactions", "Blockchain::remove_block_transactions"], "pool of two transactions with symbolic work and signatures, stale counter arbitrary, confirmed transaction arbitrary; call order on every path of remove_block_transactions", covers=2)
 M("C14", "c14_delete_releases_reservations", ["Mempool::delete_transactions"], "pool holding one transaction with one input; the block confirms that transaction")
 
 # ============================================================================== C02
@@ -268,3 +278,4 @@ M("C11", "c11_handshake_response_total", ["Peer::handle_handshake_response (asyn
 M("C11", "c11_ghost_request_any_peer", ["RoutingThread::process_ghost_chain_request (async body)"], "request from an unknown peer, a peer without a public key yet, and a handshaked peer")
 M("C11", "c11_verify_block_total", ["VerificationThread::verify_block (async body)"], "buffer that fails to decode / decodes and fails Block::generate / decodes and generates; id and hash symbolic")
 M("C11", "c11_gt_payload", ["Mempool::add_golden_ticket (async body)", "GoldenTicket::deserialize_from_net"], "GoldenTicket-typed transaction with a data field of every length 0..=200")
+M("C11", "c11_network_handshake_gate", ["Network::handle_handshake_response (async body)"], "same as c17_network_gate: a rejected response from a peer in any state ends in a plain return, no panic", covers=1)
